@@ -26,14 +26,14 @@ MT_UNSAFE_LIBC = {"strtok", "rand", "srand", "setlocale", "localeconv", "asctime
 SYNC = re.compile(r"^(pthread_|__atomic_|__sync_|atomic_|mtx_|cnd_|sem_)")
 
 
-def gen_ops(B, seed):
+def gen_ops(B, seed, cfg="A"):
     """Generated op alphabet: for every value-returning entry point of the public headers up to three tuples that succeed and one that fails (taken from the C03
     argument product), written as C statements into sched_ops_gen.h.  Crystal arguments are thread-private copies obtained inside the op.  Returns
     (include dir, names, groups) where groups = {function: [op numbers]}."""
     import hashlib, math
     import numpy as np
     import xrl, c03
-    X = xrl.Xrl("plain", "A", build=B, nproc=4)
+    X = xrl.Xrl("plain", cfg, build=B, nproc=4)
     r, lines = X.op("CrystalList", "i", [1]); cnames = lines[0].split("\t")[1:]
     sigs = dict(xrl.generic_fns())
     body, names, groups = [], [], {}
@@ -50,7 +50,7 @@ def gen_ops(B, seed):
             b = v if isinstance(v, bytes) else v.encode("latin-1")
             return '"' + "".join("\\%03o" % ch for ch in b) + '"'
         return None
-    for p in c03.build_plans(B, "A", 0, seed):
+    for p in c03.build_plans(B, cfg, 0, seed):
         if p.kind != "fn" or p.name not in sigs or p.n == 0:
             continue
         sig = sigs[p.name]; ret, args = sig[0], sig[2:-1]
@@ -219,15 +219,22 @@ def run(ctx, B):
     for u in unsafe:
         if u not in ("setlocale",):
             ctx.violation("libc|mt-unsafe|%s" % u, "library code calls %s(), which keeps process-global state and is not thread safe" % u)
-    gdir, gnames, ggroups = gen_ops(B, ctx.seed)
-    for k_, nm_ in enumerate(gnames):
-        OPNAMES[NOPS + k_] = nm_
-    ctx.notes["generated_ops"] = dict(ops=len(gnames), functions=len(ggroups))
-    exe = B.exe("sched", [os.path.join(hdir, "sched.c")], "acc", "A", hflags=["-O1", "-g", "-fno-omit-frame-pointer"], extra=["-no-pie", "-rdynamic", "-I" + gdir, "-DSCHED_GEN=1"])
     loc = B.locale_dir()
     total_sched = total_trans = total_harness = 0
     all_outcomes = 0
-    for lc in ([None, "xx_XX"] if loc else [None]):
+    gen = {}
+    KISSEL = re.compile(r"Kissel|Photo_Partial|Photo_Total|ElectronConfig$|Cascade")
+    # passes: configuration A under the C locale and the comma locale; configuration K (regenerated Kissel table) for the entry points that only do real work there
+    for cfgx, lc in [("A", None)] + ([("A", "xx_XX")] if loc else []) + [("K", None)]:
+        if cfgx not in gen:
+            gdir, gnames, ggroups = gen_ops(B, ctx.seed, cfgx)
+            gen[cfgx] = (B.exe("sched", [os.path.join(hdir, "sched.c")], "acc", cfgx, hflags=["-O1", "-g", "-fno-omit-frame-pointer"], extra=["-no-pie", "-rdynamic", "-I" + gdir, "-DSCHED_GEN=1"]), gnames, ggroups)
+            ctx.notes.setdefault("generated_ops", {})[cfgx] = dict(ops=len(gnames), functions=len(ggroups))
+        exe, gnames, ggroups = gen[cfgx]
+        for k_ in [k_ for k_ in OPNAMES if k_ >= NOPS]:
+            del OPNAMES[k_]
+        for k_, nm_ in enumerate(gnames):
+            OPNAMES[NOPS + k_] = nm_
         env = dict(os.environ)
         if lc:
             env.update(LOCPATH=loc, XDRV_LOCALE=lc)
@@ -255,6 +262,9 @@ def run(ctx, B):
         if lc:
             harnesses = [h_ for h_ in harnesses if any(o in (7, 8, 9, 10, 17, 25) for p in h_[0] for o in p)][::2]
         else:
+            if cfgx == "K":
+                harnesses = [([[4], [4]], "-", 2), ([[4], [1]], "-", 2)]
+                ggroups = {f_: o_ for f_, o_ in ggroups.items() if KISSEL.search(f_)}
             # every value-returning entry point against itself: two threads, two different tuples (succeeding / failing) of the SAME function - a static
             # scratch variable, memo or lazily built table inside any function is written by both threads and shows as a contested location
             for fn_, ops_ in sorted(ggroups.items()):
@@ -284,7 +294,7 @@ def run(ctx, B):
                 def bad(sym, text, prefix, _name=name, _progs=progs, _pts=pts, cont=None):
                     with lock:
                         ctx.violation("sched|%s|%s" % (sym, "+".join(sorted(set(OPNAMES[o].split("(")[0] for p in _progs for o in p)))),
-                                      "%s%s: %s" % (_name, " [locale %s]" % lc if lc else "", text), dict(progs=_progs, points=_pts, prefix=list(prefix), locale=lc, contested=sorted(contested), seed=ctx.seed, opnames={str(o): OPNAMES[o] for p__ in _progs for o in p__ if o >= NOPS}))
+                                      "%s%s: %s" % (_name, " [locale %s]" % lc if lc else "", text), dict(progs=_progs, points=_pts, prefix=list(prefix), locale=lc, cfg=cfgx, contested=sorted(contested), seed=ctx.seed, opnames={str(o): OPNAMES[o] for p__ in _progs for o in p__ if o >= NOPS}))
                 # 1. conflict pass
                 line, _ = h.run("S", "-", progs)
                 r = parse(line)
@@ -388,8 +398,8 @@ def replay(path):
         p = subprocess.run([texe, "16", "1500", "0"], stdout=subprocess.PIPE, stderr=subprocess.PIPE, text=True, env=env)
         n = p.stderr.count("WARNING: ThreadSanitizer"); print(p.stdout[-300:]); print("ThreadSanitizer reports: %d" % n)
         return 1 if n or "mismatches=0" not in p.stdout else 0
-    gdir, gnames, ggroups = gen_ops(B, int(r.get("seed", 1)))
-    exe = B.exe("sched", [os.path.join(hdir, "sched.c")], "acc", "A", hflags=["-O1", "-g", "-fno-omit-frame-pointer"], extra=["-no-pie", "-rdynamic", "-I" + gdir, "-DSCHED_GEN=1"])
+    gdir, gnames, ggroups = gen_ops(B, int(r.get("seed", 1)), r.get("cfg", "A"))
+    exe = B.exe("sched", [os.path.join(hdir, "sched.c")], "acc", r.get("cfg", "A"), hflags=["-O1", "-g", "-fno-omit-frame-pointer"], extra=["-no-pie", "-rdynamic", "-I" + gdir, "-DSCHED_GEN=1"])
     if r.get("opnames"):      # generated ops are addressed by name: their numbers depend on the tree and the seed
         num = {n_: NOPS + k_ for k_, n_ in enumerate(gnames)}
         r["progs"] = [[(num.get(r["opnames"].get(str(o), ""), o) if o >= NOPS else o) for o in p_] for p_ in r["progs"]]
